@@ -148,7 +148,12 @@ func TypeToValue(t *sysl.Type) *sysl.Value {
 	case *sysl.Type_OneOf_:
 		unionSet := MakeValueSet()
 		for _, embeddedType := range x.OneOf.Type {
-			AppendItemToValueList(unionSet.GetSet(), MakeValueString(embeddedType.GetTypeRef().Ref.Path[0]))
+			// a member is a reference to a type, or a primitive
+			_, memberName := syslutil.GetTypeDetail(embeddedType)
+			if path := embeddedType.GetTypeRef().GetRef().GetPath(); len(path) > 0 {
+				memberName = path[0]
+			}
+			AppendItemToValueList(unionSet.GetSet(), MakeValueString(memberName))
 		}
 		AddItemToValueMap(m, "fields", unionSet)
 	case *sysl.Type_Sequence:
